@@ -270,6 +270,19 @@ fn long_detectors(left: usize, right: usize, total: usize, seed: u64, r: &mut Re
 	r.max("longest stream (steps)", t as f64);
 }
 
+/// long candle stream: 3000-step segments through a regime schedule (walk, long ramps, flat stretches, trends, grid, zero volume, clean)
+fn long_candles(total: usize, seed: u64) -> Vec<yata::core::Candle> {
+	let mut cs: Vec<yata::core::Candle> = Vec::with_capacity(total);
+	let sched = [0usize, 7, 1, 4, 3, 2, 6, 7];
+	let mut j = 0usize;
+	while cs.len() < total {
+		let class = sched[j % sched.len()];
+		cs.extend(gen::candles(class, seed ^ (j as u64) << 24, 3000.min(total - cs.len()).max(2), 20));
+		j += 1;
+	}
+	cs
+}
+
 pub fn run(ctx: &Ctx, r: &mut Report) {
 	if let Some(rp) = &ctx.replay {
 		let c = &rp["case"];
@@ -278,6 +291,14 @@ pub fn run(ctx: &Ctx, r: &mut Report) {
 				long_arith(&reg::method(mn), c["len"].as_u64().unwrap_or(1), c["total"].as_u64().unwrap_or(100_000) as usize, c["seed"].as_u64().unwrap_or(0), c["grid_only"].as_bool().unwrap_or(false), r);
 			} else {
 				long_select(c["n"].as_u64().unwrap_or(1) as usize, (c["position"].as_u64().unwrap_or(1000) + CHUNK as u64) as usize, c["seed"].as_u64().unwrap_or(0), r);
+			}
+		} else if let Some(iname) = c.get("indicator").and_then(Value::as_str) {
+			let d = reg::indicator(iname);
+			if let Ok(cfg) = (d.default)().de(&c["config"]) {
+				let seed = c["seed"].as_u64().unwrap_or(0);
+				let cs = long_candles(c["len"].as_u64().unwrap_or(60_000) as usize, seed);
+				crate::props::c05::DOC_CHECKS.store(false, std::sync::atomic::Ordering::Relaxed);
+				crate::props::c05::check(true, true, &d, cfg.as_ref(), &cs, "long", seed, 99, 0, r);
 			}
 		} else if c.get("left").is_some() {
 			long_detectors(c["left"].as_u64().unwrap_or(1) as usize, c["right"].as_u64().unwrap_or(1) as usize, (c["position"].as_u64().unwrap_or(1000) + CHUNK as u64) as usize, c["seed"].as_u64().unwrap_or(0), r);
@@ -340,6 +361,37 @@ pub fn run(ctx: &Ctx, r: &mut Report) {
 			continue;
 		}
 		long_detectors(l, rt, ctx.pick(2_000_000, 30_000_000) / if l + rt > 20 { 4 } else { 1 }, ctx.seed ^ k << 8, r);
+	}
+	// indicators: values and signals against their references at every step of long candle streams
+	// (regime schedule incl. 700-step monotone ramps, flat stretches, zero volume, grid)
+	{
+		use crate::props::c05;
+		c05::DOC_CHECKS.store(false, std::sync::atomic::Ordering::Relaxed);
+		let total = ctx.pick(60_000usize, 600_000);
+		for d in reg::indicators() {
+			let cfgs = crate::icfg::configs(&d, ctx.pick(3, 8), ctx.seed);
+			for cfg in cfgs.iter() {
+				k += 1;
+				if !ctx.mine(k) {
+					continue;
+				}
+				let seed = ctx.seed ^ k << 8;
+				let cs = long_candles(total, seed);
+				let before: std::collections::BTreeSet<String> = r.viol.keys().cloned().collect();
+				c05::check(true, true, &d, cfg.as_ref(), &cs, "long", seed, 99, 0, r);
+				// re-key what the two oracles reported under this property
+				let new: Vec<String> = r.viol.keys().filter(|s| !before.contains(*s) && (s.starts_with("C05|") || s.starts_with("C06|"))).cloned().collect();
+				for sig in new {
+					if let Some(v) = r.viol.remove(&sig) {
+						let step = v.2["step"].as_u64().unwrap_or(0);
+						r.viol.insert(format!("C07|indicator|{}|decade{}", &sig[4..], decade(step)), v);
+					}
+				}
+				r.cell(&format!("indicator-long:{}", d.name));
+				r.max("longest candle stream (steps)", total as f64);
+			}
+		}
+		c05::DOC_CHECKS.store(true, std::sync::atomic::Ordering::Relaxed);
 	}
 	if ctx.mine(0) {
 		r.note("ParabolicSAR.trend_inc (u32) saturates only after 4e9 monotone steps: out of reach of any run here");
